@@ -1,9 +1,9 @@
 #!/bin/bash
-# usage: import_round4.sh <Cnn> : validates /tmp/seed4/Cnn/{a,r1,r2} on scratch copies and copies them to /verif/seeded/Cnn-4a|4r1|4r2
+# usage: import_round.sh <round> <Cnn> : validates /tmp/seed<round>/Cnn/{a,r1,r2} on scratch copies and copies them to /verif/seeded/Cnn-<round>{a,r1,r2}
 set -u
-P="$1"
+R="$1"; P="$2"
 for v in a r1 r2; do
-  S=/tmp/seed4/$P/$v
+  S=/tmp/seed$R/$P/$v
   [ -f $S/patch.diff ] || { echo "$P-$v MISSING"; continue; }
   T="$(mktemp -d /tmp/imp.XXXXXX)"
   rsync -a --exclude .git /repo/ "$T/mut/"; rsync -a --exclude .git /repo/ "$T/clean/"
@@ -20,9 +20,9 @@ for v in a r1 r2; do
     res="$res demo_pkg=$PKG demo_with_change_exit=$M demo_clean_exit=$C"
     { [ $M -ne 0 ] && [ $C -eq 0 ]; } || { okall=0; tail -4 "$T/mut.log" "$T/clean.log"; }
   fi
-  echo "$P-4$v $res valid=$okall"
+  echo "$P-5$v $res valid=$okall"
   if [ $okall = 1 ]; then
-    D=/verif/seeded/$P-4$v; mkdir -p $D; cp $S/patch.diff $S/meta.json $D/; [ -f $S/demo_test.go.txt ] && cp $S/demo_test.go.txt $D/demo_test.go
+    D=/verif/seeded/$P-5$v; mkdir -p $D; cp $S/patch.diff $S/meta.json $D/; [ -f $S/demo_test.go.txt ] && cp $S/demo_test.go.txt $D/demo_test.go
   fi
   rm -rf $T
 done
